@@ -3,7 +3,7 @@
   The arithmetic core is shared with C08 (Model/Bounds.lean): constant indices are checked at compile time by
   `staticIndex`, run-time indices by `implIndex`; both equal the specified normalisation, whose results are
   in bounds.  Which index VALUE reaches these checks is decided by the compiler's constant propagation, which is
-  NOT modelled: it is tied by checks/c04.py (known finding F2: flow-insensitive propagation of `let` indices).
+  NOT modelled: it is tied by checks/c04.py (F2, flow-insensitive propagation of `let` indices, was fixed in /repo).
 -/
 import FerretVerif.Props.C08
 
@@ -28,8 +28,8 @@ theorem norm_index_value (i : Int) (n j : Nat) (h : normIndex i n = some j) : (j
 
 /-- the run-time check (element writes through computed indices) agrees with the specification -/
 theorem fixed_write_in_bounds (i : Int) (n : Nat) (hl : (n : Int) < 2147483648)
-    (h1 : -(2147483648 : Int) ≤ i) (h2 : i < 2147483648) (j : Nat) (h : implIndex i n = some j) : j < n :=
-  C08.index_in_bounds i n j (by rw [← C08.dyn_index_checked i n hl h1 h2]; exact h)
+    (j : Nat) (h : implIndex i n = some j) : j < n :=
+  C08.index_in_bounds i n j (by rw [← C08.dyn_index_checked i n hl]; exact h)
 
 example : staticIndex (-1) 3 = some 2 ∧ staticIndex 3 3 = none ∧ staticIndex (-4) 3 = none := by decide
 
